@@ -1,6 +1,7 @@
 package main
 
 import (
+	"strconv"
 	"fmt"
 	"go/ast"
 	"go/token"
@@ -324,8 +325,14 @@ func (p *Program) anchorHit(fn *ssa.Function, anchor string, before bool, b *ssa
 	loc, ok := p.anchors[key]
 	if !ok {
 		loc = [2]int{-1, -1}
+		occ := 1
+		if i := strings.IndexByte(anchor, 0); i >= 0 {
+			occ, _ = strconv.Atoi(anchor[i+1:])
+			anchor = anchor[:i]
+		}
 		if syn := fn.Syntax(); syn != nil {
 			var stmt ast.Stmt
+			seen := 0
 			ast.Inspect(syn, func(n ast.Node) bool {
 				if stmt != nil {
 					return false
@@ -334,8 +341,11 @@ func (p *Program) anchorHit(fn *ssa.Function, anchor string, before bool, b *ssa
 					if _, isBlock := s.(*ast.BlockStmt); !isBlock {
 						txt := p.srcText(s.Pos(), s.End())
 						if strings.HasPrefix(normWS(txt), normWS(anchor)) {
-							stmt = s
-							return false
+							seen++
+							if seen == occ {
+								stmt = s
+								return false
+							}
 						}
 					}
 				}
